@@ -694,6 +694,49 @@ func c14Run(c *core.C, idx int) {
 			c14Sweep(ctx, c, []c14View{{name: "copy-of(" + b.name + ")", rb: dst, vm: src.vm}}, true, &seq)
 			opKinds["copy"] = true
 		}
+		// Now and then: a put onto a path that was a directory before and holds nothing any more. The map has no
+		// directories, so the put may succeed; a disk bucket still has the empty directory and may refuse. Either
+		// way the bucket must afterwards hold exactly the model (no temporary object of a refused atomic put).
+		if c.Rand.IntN(8) == 0 {
+			var empties []string
+			for _, d := range c14Dirs {
+				used := false
+				for q := range b.model {
+					if model.ContainsPath(d, q) || model.ContainsPath(q, d) {
+						used = true
+					}
+				}
+				if !used {
+					empties = append(empties, d)
+				}
+			}
+			if len(empties) > 0 {
+				d := empties[c.Rand.IntN(len(empties))]
+				content := c14Content(c, &uniq)
+				var opts []storage.PutOption
+				atomic := c.Rand.IntN(3) != 0
+				if atomic {
+					opts = append(opts, storage.PutWithAtomic())
+				}
+				perr := storage.PutPath(ctx, b.rw, d, content, opts...)
+				seq = append(seq, fmt.Sprintf("%s.put-on-former-directory(%q,atomic=%v)->%v", b.name, d, atomic, perr != nil))
+				c.Eval(1)
+				if perr == nil {
+					b.model[d] = content
+					c.Count("puts_on_former_directory_accepted", 1)
+				} else {
+					c.Count("puts_on_former_directory_refused", 1)
+				}
+				c14Sweep(ctx, c, []c14View{b.view()}, true, &seq)
+				if perr == nil {
+					if derr := b.rw.Delete(ctx, d); derr != nil {
+						c.Violation("delete-failed", fmt.Sprintf("base=%s path=%q", b.name, d), fmt.Sprintf("delete of an existing object failed: %v; ops=%v", derr, seq), nil)
+					}
+					delete(b.model, d)
+				}
+				opKinds["put-on-former-directory"] = true
+			}
+		}
 		// reads after the step on bases and two derived views
 		views := make([]c14View, 0, len(bases))
 		for _, bb := range bases {
